@@ -27,7 +27,8 @@ CLAUSES = (
     'manual-submit and late flags, re-prepares preparing tasks, reloads '
     'completed outputs and prerequisite / xtrigger satisfaction; '
     '_load_pool_from_db calls every loader; every workflow parameter with a '
-    'single-key writer survives the table rewrite and has a restore branch; '
+    'single-key writer survives the table rewrite (re-inserted from the state '
+    'its run-time writers keep current) and has a restore branch; '
     'shutdown writes event timers and the task pool and flushes the queue '
     'before closing the DB. Not decided: equality of the continued run with '
     'an uninterrupted one.')
@@ -379,6 +380,8 @@ def check(c):
             continue
         c.ob('C19.params', f'{swp.fq} :: restore branch for {k}',
              k in branches, c.where(swp.node, swp), '')
+    from rules._shared import rewrite_live_source_rules
+    rewrite_live_source_rules(c, 'C19.rewrite-live', single, rewrite)
     for k in ('KEY_INITIAL_CYCLE_POINT', 'KEY_START_CYCLE_POINT',
               'KEY_FINAL_CYCLE_POINT', 'KEY_RUN_MODE', 'KEY_UTC_MODE',
               'KEY_CYCLE_POINT_TIME_ZONE', 'KEY_UUID_STR'):
@@ -466,6 +469,19 @@ def primary_keys(c, rule, only=None):
                      'rows overwrite each other / duplicate on replace'))
 
 VARIANTS = [
+    ('hold-point-rewritten-from-options', 'cylc/flow/workflow_db_mgr.py',
+     '''            {
+                "key": self.KEY_HOLD_CYCLE_POINT,
+                "value": (
+                    str(schd.pool.hold_point)
+                    if schd.pool.hold_point is not None else None
+                ),
+            },
+        ])''', '''            {
+                "key": self.KEY_HOLD_CYCLE_POINT,
+                "value": getattr(schd.options, self.KEY_HOLD_CYCLE_POINT, None),
+            },
+        ])''', 'C19.rewrite-live'),
     ('swap-select', 'cylc/flow/rundb.py',
      '''                %(task_pool)s.status,
                 %(task_pool)s.is_held,
